@@ -25,6 +25,7 @@ def handle (line : String) : String :=
   | "use" :: args => Codec.runUse args
   | "rd" :: args => Reader.run args
   | "rdraw" :: args => Reader.runRaw args
+  | "wf" :: args => Reader.runWf args
   | "mux" :: args => Mux.run args
   | "life" :: args => Life.run args
   | "lr" :: args => LoginRecord.run args
